@@ -772,9 +772,20 @@ impl<'a> Packet<'a> {
 // longer than the protocol's limit (or has its terminator late or missing) is accepted with the
 // reason cut at the limit; what was accepted can be written again and reads back equal.
 
-fn close_reason_boundary<const N: usize, const T: usize>(hint: bool) {
-    // T = HEADER_SIZE + 1 + N
-    let body: [u8; N] = kani::any();
+fn close_reason_boundary<const N: usize, const T: usize>(hint: bool, nul_at: Option<usize>) {
+    // T = HEADER_SIZE + 1 + N. The terminator position is fixed per harness (a symbolic position makes
+    // the accepted reason's *length* symbolic, and every later copy a symbolic-length copy: > 8 GB);
+    // the content is a non-NUL filler with symbolic non-NUL bytes at the start, in the middle and just
+    // before the limit.
+    let mut body = [0x61u8; N];
+    let s: [u8; 3] = kani::any();
+    kani::assume(s[0] != 0 && s[1] != 0 && s[2] != 0);
+    body[0] = s[0];
+    body[64] = s[1];
+    body[125] = s[2];
+    if let Some(p) = nul_at {
+        body[p] = 0;
+    }
     let ack: u16 = kani::any();
     kani::assume(ack >> SEQUENCE_BITS == 0);
     let mut data = [0u8; T];
@@ -799,8 +810,12 @@ fn close_reason_boundary<const N: usize, const T: usize>(hint: bool) {
                 let mut out = [0u8; 160];
                 let b = cp.write(&mut out[..]).unwrap();
                 rt_check_connected_noscratch(&cp, b, hint);
-                kani::cover!(reason.len() == CTRLMSG_CLOSE_REASON_LENGTH);
-                kani::cover!(reason.len() < 100);
+                let expect = match nul_at {
+                    Some(p) if p < CTRLMSG_CLOSE_REASON_LENGTH => p,
+                    _ => CTRLMSG_CLOSE_REASON_LENGTH,
+                };
+                assert!(reason.len() == expect);
+                kani::cover!(true, "accepted");
             } else {
                 assert!(false);
             }
@@ -813,15 +828,40 @@ fn close_reason_boundary<const N: usize, const T: usize>(hint: bool) {
 #[kani::proof]
 #[kani::unwind(140)]
 #[kani::stub(libtw2_huffman::Huffman::compress_impl_unsafe, libtw2_huffman::Huffman::verif_compress_never)]
-fn c06_close06_reason_boundary_130() {
-    // reason field of 130 bytes (no token): terminator anywhere or nowhere
-    close_reason_boundary::<130, 134>(false);
+fn c06_close06_reason_130_unterminated() {
+    // 130-byte reason field without terminator: cut at the 127-byte limit
+    close_reason_boundary::<130, 134>(false, None);
 }
 
 #[kani::proof]
 #[kani::unwind(140)]
 #[kani::stub(libtw2_huffman::Huffman::compress_impl_unsafe, libtw2_huffman::Huffman::verif_compress_never)]
-fn c06_close06_reason_boundary_127() {
-    // reason field of exactly 127 bytes
-    close_reason_boundary::<127, 131>(false);
+fn c06_close06_reason_130_nul_at_127() {
+    // terminator right behind the limit (a 127-byte reason)
+    close_reason_boundary::<130, 134>(false, Some(127));
 }
+
+#[kani::proof]
+#[kani::unwind(140)]
+#[kani::stub(libtw2_huffman::Huffman::compress_impl_unsafe, libtw2_huffman::Huffman::verif_compress_never)]
+fn c06_close06_reason_130_nul_at_126() {
+    // 126-byte reason with trailing bytes
+    close_reason_boundary::<130, 134>(false, Some(126));
+}
+
+#[kani::proof]
+#[kani::unwind(140)]
+#[kani::stub(libtw2_huffman::Huffman::compress_impl_unsafe, libtw2_huffman::Huffman::verif_compress_never)]
+fn c06_close06_reason_130_nul_at_129() {
+    // terminator beyond the limit: cut at 127
+    close_reason_boundary::<130, 134>(false, Some(129));
+}
+
+#[kani::proof]
+#[kani::unwind(140)]
+#[kani::stub(libtw2_huffman::Huffman::compress_impl_unsafe, libtw2_huffman::Huffman::verif_compress_never)]
+fn c06_close06_reason_127_unterminated() {
+    // exactly 127 bytes without terminator
+    close_reason_boundary::<127, 131>(false, None);
+}
+
